@@ -11,6 +11,7 @@ from harness.core import Arm, Violation, libcall
 
 from paranoid_crypto.lib import ntheory_util
 from paranoid_crypto.lib import rsa_aggregate_checks
+from paranoid_crypto.lib import rsa_single_checks
 from paranoid_crypto.lib import rsa_util
 
 ID = 'C03'
@@ -20,7 +21,8 @@ RULE = (
     'integer by SHAKE-256; values are products of pool subsets, so sharing, nesting and '
     'duplicates are constructed, not filtered) plus an enumeration of every number of distinct '
     'values 0..130. Oracle: naive gcd(v_i, other * prod of the distinct w != v_i) element-wise; '
-    'CheckGCD/CheckGCDN1 flag exactly / record exactly what that reference says. A case is '
+    'CheckGCD/CheckGCDN1 flag exactly / record exactly what that reference says (in a third of the CheckGCD cases '
+    'some protobufs were first handled by CheckFermat and may already carry a factor record). A case is '
     'non-trivial when some value shares a factor with another distinct value and some level of '
     'the product tree has an odd node count (>1); distinctness by SHA-256 of the descriptor.')
 ASSUMPTIONS = [
@@ -229,6 +231,15 @@ def _keys_from(desc):
 def run_checkgcd(desc):
   ns = _keys_from(desc)
   keys = [art.rsa_key(n, pad_n=(1 if desc.get('pad') and i % 2 else 0)) for i, n in enumerate(ns)]
+  # some protobufs were already handled by a single-key factoring check (as CheckAllRSA does before the
+  # aggregate checks) and may carry its factor record and weak flag
+  pre = set()
+  for j in desc.get('pre') or []:
+    if keys:
+      k = keys[j % len(keys)]
+      libcall(rsa_single_checks.CheckFermat().Check, [k])
+      if art.factor_set(k.test_info, 'N_FACTORS') is not None:
+        pre.add(j % len(keys))
   ret = libcall(rsa_aggregate_checks.CheckGCD().Check, keys)
   ref = _ref_gcds(ns)
   if not isinstance(ret, bool) and ret not in (0, 1):
@@ -246,10 +257,10 @@ def run_checkgcd(desc):
       # the gcd and its cofactor are recorded; when gcd == n the check may add a proper
       # divisor found with an individual partner (every recorded value must divide n)
       if fs is None or not {g, n // g} <= fs or any(f < 1 or n % f for f in fs) or (
-          g != n and fs != {g, n // g}):
+          g != n and i not in pre and fs != {g, n // g}):
         raise Violation('checkgcd:record', index=i, n=n, gcd=g, got=sorted(fs or []))
     else:
-      if e[0] or k.test_info.weak or fs is not None:
+      if e[0] or (i not in pre and (k.test_info.weak or fs is not None)):
         raise Violation('checkgcd:false-accusation', index=i, n=n, ns=ns,
                         record=sorted(fs or []))
   if not ns and (ret is not False):
@@ -263,6 +274,10 @@ def run_checkgcd(desc):
     cls.append('proper-shared-factor')
   if all(g == 1 for g in ref) and len(ns) > 1:
     cls.append('nothing-shared')
+  if pre:
+    cls.append('some-keys-factored-before')
+    if any(g != 1 and i in pre for i, g in enumerate(ref)):
+      cls.append('factored-before-and-sharing')
   return {'nt': _shares(ns) and _odd_level(len(set(ns))), 'cls': cls, 'nkeys': len(ns)}
 
 
@@ -275,7 +290,8 @@ def strat_checkgcd(tier):
         st.lists(idx, min_size=2, max_size=2),
         st.lists(idx, min_size=2, max_size=4))
     keys = draw(st.lists(key, min_size=0, max_size=draw(st.sampled_from([2, 5, 12, 30]))))
-    return {'m': draw(material), 'np': np_, 'keys': keys, 'pad': draw(st.booleans())}
+    pre = draw(st.one_of(st.just([]), st.just([]), st.lists(st.integers(0, 29), min_size=1, max_size=3)))
+    return {'m': draw(material), 'np': np_, 'keys': keys, 'pad': draw(st.booleans()), 'pre': pre}
   return s()
 
 
